@@ -101,6 +101,35 @@ func checkState(c *hx.Ctx, h *history, upto int, o *obs, a *acct) {
 			c.Fail("inv:pool-pos", "a peer outside the pool has active positions", in, map[string]interface{}{"peer": k, "sum": v}, 0)
 		}
 	}
+	// hypothesis (H2) of C10, evaluated here on every state of every history: for each candidate of
+	// the previous view's pool, the validate positions of its authorizers (owner excluded) fit into
+	// the TotalPos frozen in that pool
+	curStatus := map[int]int{}
+	for _, p := range o.Pool {
+		curStatus[p.Peer] = p.Status
+	}
+	for _, p := range o.Prev {
+		if p.Status != 1 && p.Status != 2 {
+			continue
+		}
+		cs := p.Status == 2 || curStatus[p.Peer] == 2
+		var sum uint64
+		for _, i := range o.Infos {
+			if i.Peer != p.Peer || i.Addr == p.Owner {
+				continue
+			}
+			if cs {
+				sum += i.B[0] + i.B[3]
+			} else {
+				sum += i.B[1] + i.B[4]
+			}
+		}
+		if sum > p.Total {
+			c.Fail("inv:validatepos-exceeds-prev-totalpos", "fee-split hypothesis: the authorizers' validate positions of a peer exceed its TotalPos in the previous view's pool", in,
+				map[string]interface{}{"peer": p.Peer, "sum": sum, "prevTotalPos": p.Total, "consensus_side": cs}, nil)
+		}
+		c.Count("h2-evaluated")
+	}
 	// per-address accounting: total stake = all position buckets + initPos of owned peers
 	for id := 0; id < nAddr; id++ {
 		if stakeOf(o, id) != all6[id]+owned[id] {
